@@ -215,6 +215,9 @@ def layout(rng, comps, canonical=False):
         first = True
         for t in toks_comp(c):
             if first:
+                # a component that begins with a sigil needs no white space before it: [push("s",#a)#b@seen]
+                if not canonical and sep.strip() == "" and t[1][:1] in "#@$" and prev[0] != "op" and out != "[" and rng.random() < 0.3:
+                    sep = ""
                 out += sep
                 first = False
             else:
